@@ -2,17 +2,27 @@
 """Leaf translator: Rust -> Gallina for small integer/boolean/Option functions.
 
 For each function listed in LEAVES the Rust source text under /repo is parsed (statement
-subset: let / assignment / compound assignment / if-else / if-let / match on Option or a
-field-less enum / return / logging macros skipped) and symbolically executed into ONE Coq
-expression; the result is written to coq/Gen/Leaf.v as
+subset: let / let-else on Option / local const / assignment / compound assignment / if-else /
+if-let / match on Option or a field-less enum / return / atomic store+load as field write/read /
+calls to already translated functions / `use` and logging macros skipped; f64 values as Coq
+primitive floats with the Rust f64 primitives of Model/Select.v) and symbolically executed into ONE Coq
+expression; the result is written to coq/Gen/Leaf<Group>.v (GROUP table) as
 
     Definition leaf_<name> (<self fields read> <params>) : <result> := ...
 
 where the result is the return value, or the tuple of final values of everything the
-function assigns (plus the return value last).  Proofs/LeafP.v proves each generated
+function assigns (plus the return value last).  Proofs/Leaf<Group>P.v proves each generated
 definition equal to the hand-written model function the property theorems are about, so an
-edit of the Rust function changes Gen/Leaf.v and breaks a named equivalence obligation at
+edit of the Rust function changes Gen/Leaf<Group>.v and breaks a named equivalence obligation at
 once, before any generated input has to find it.
+
+Semantics written out: u64/i32 `saturating_*` by the sat_* / ssub operators of Model/Base.v, `min`/`max`
+by Z.min/Z.max, signed and unsigned `/` by Z.quot (equal to `/` on non-negative operands), `clamp`
+by Base.clamp plus its assertion, `as` between integer types only where the value is unchanged,
+`as` between f64 and integers by Select.f64_as_u64 / f64_as_i32 / f64_of_i32 / f64_of_u64, f64
+comparisons by PrimFloat.ltb/leb/eqb (false on NaN, like Rust), `f64::max/min` by Select.f64_max/min.
+Plain `+ - *` are the mathematical operations: an overflow (a debug-build panic) is not modelled
+here; the hand models that care carry their own overflow flag.
 
 A function that cannot be translated (syntax outside the subset, missing) is reported in the
 JSON summary under "failed"; check.py treats that like a broken obligation.
@@ -28,7 +38,21 @@ GROUP = {"backoff_delay": "Recon", "should_attempt_reconnect": "Recon", "record_
          "needs_keepalive": "Live", "is_timed_out": "Live", "stall_probe_due": "Live", "needs_measurement": "Live",
          "needs_time_flush": "Live",
          "ack_classic": "Cong", "ack_enhanced": "Cong", "cong_handle_nak": "Cong", "ack_global": "Cong",
-         "seq_is_expired": "Seq", "seq_is_valid": "Seq"}
+         "seq_is_expired": "Seq", "seq_is_valid": "Seq",
+         "get_smooth_rtt_ms": "Stall", "effective_stall_stale_ms": "Stall", "is_stalled": "Stall",
+         "update_stall_latch": "Stall", "stall_latched": "Stall", "clear_stall_latch": "Stall",
+         "silence_pull_window_ms": "Stall", "is_briefly_silent": "Stall", "update_silence_pull": "Stall",
+         "perform_window_recovery": "Recov", "cong_perform_window_recovery": "Recov",
+         "conn_perform_window_recovery": "Recov",
+         "set_conn_timeout_ms": "Cfg"}
+# groups with a canonical signature: parameters = the self fields read in struct declaration order, then the
+# opaque getter inputs, then the Rust parameters in signature order; outputs in the same order.  (The four
+# earlier groups keep the order of first use in the body, which the lemmas of Proofs/Leaf{Recon,Live,Cong,
+# Seq}P.v are stated for.)  With a canonical order neither a reordering of reads in the body nor a swap of
+# two same-typed arguments of a wrapper can move a parameter under the lemma that applies it by position.
+CANONICAL_GROUPS = {"Stall", "Recov", "Cfg"}
+# groups whose definitions may use f64 values (header additionally imports Floats, FConstants, Select)
+FLOAT_GROUPS = {"Stall", "Recov"}
 CORE = "crates/srtla-core/src/"
 
 # (coq name, file, impl type or None for a free fn, fn name)
@@ -48,7 +72,32 @@ LEAVES = [
     ("seq_is_expired", "src/sender/sequence.rs", "SequenceTrackingEntry", "is_expired"),
     ("seq_is_valid", "src/sender/sequence.rs", "SequenceTrackingEntry", "is_valid"),
     ("needs_time_flush", CORE + "connection/batch_send.rs", "BatchSender", "needs_time_flush"),
+    # stall latch / silence pull (C03 C04 C11 C12 C13); helpers first, callers after
+    ("get_smooth_rtt_ms", CORE + "connection/mod.rs", "SrtlaConnection", "get_smooth_rtt_ms"),
+    ("effective_stall_stale_ms", CORE + "connection/mod.rs", "SrtlaConnection", "effective_stall_stale_ms"),
+    ("is_stalled", CORE + "connection/mod.rs", "SrtlaConnection", "is_stalled"),
+    ("update_stall_latch", CORE + "connection/mod.rs", "SrtlaConnection", "update_stall_latch"),
+    ("stall_latched", CORE + "connection/mod.rs", "SrtlaConnection", "stall_latched"),
+    ("clear_stall_latch", CORE + "connection/mod.rs", "SrtlaConnection", "clear_stall_latch"),
+    ("silence_pull_window_ms", CORE + "connection/mod.rs", "SrtlaConnection", "silence_pull_window_ms"),
+    ("is_briefly_silent", CORE + "connection/mod.rs", "SrtlaConnection", "is_briefly_silent"),
+    ("update_silence_pull", CORE + "connection/mod.rs", "SrtlaConnection", "update_silence_pull"),
+    # time-based window recovery (C06 C10): the rule, then the two wrappers that pass the fields to it
+    ("perform_window_recovery", CORE + "connection/congestion/enhanced.rs", None, "perform_window_recovery"),
+    ("cong_perform_window_recovery", CORE + "connection/congestion/mod.rs", "CongestionControl", "perform_window_recovery"),
+    ("conn_perform_window_recovery", CORE + "connection/mod.rs", "SrtlaConnection", "perform_window_recovery"),
+    # runtime timeout clamp (C18)
+    ("set_conn_timeout_ms", "src/config.rs", "DynamicConfig", "set_conn_timeout_ms"),
 ]
+
+# leaves whose equivalence lemma mentions leaf_<name>_asserts: the definition is emitted even when the
+# current body asserts nothing
+ALWAYS_ASSERTS = {"set_conn_timeout_ms"}
+# getters of untranslated component types that are read as an *input* of the leaf (named
+# <field path>_<getter>); everything else called on a component is a translation error
+OPAQUE_GETTERS = {("KalmanFilter", "value"): "f64", ("KalmanFilter", "velocity"): "f64"}
+# atomics: store/load with any ordering = plain write/read of a field of the underlying type
+ATOMIC = {"AtomicU64": "u64", "AtomicU32": "u32", "AtomicI32": "i32", "AtomicBool": "bool", "AtomicUsize": "usize"}
 
 INT_TYPES = {"u8", "u16", "u32", "u64", "usize", "i32", "i64"}
 FIELD_PATHS = {}
@@ -217,19 +266,35 @@ class P:
             self.skip_balanced("(", ")")
             self.eat(";")
             return ("skip",)
-        if v == "let":
+        if v == "use":                                # `use path::{A, B};` inside a body: names only
+            while self.take()[1] != ";":
+                pass
+            return ("skip",)
+        if v in ("let", "const"):
             self.take()
             self.eat("mut")
-            if self.peek()[1] == "Some" and False:
-                pass
+            if v == "let" and self.peek()[1] == "Some" and self.peek(1)[1] == "(":
+                # let-else: `let Some(x) = e else { <diverging block> };`
+                self.take()
+                self.expect("(")
+                var = self.take()[1]
+                self.expect(")")
+                self.expect("=")
+                e = self.expr(no_struct=True)
+                if not self.eat("else"):
+                    raise TErr("refutable let pattern without else")
+                self.expect("{")
+                b = self.block()
+                self.expect(";")
+                return ("letelse", var, e, b)
             name = self.take()[1]
             if self.eat(":"):
                 while self.peek()[1] not in ("=", ";"):
                     self.take()
             self.expect("=")
             e = self.expr()
-            if self.eat("else"):                    # let-else: `let Some(x) = e else { return ..; };`
-                raise TErr("let-else not supported")
+            if self.eat("else"):
+                raise TErr("let-else on a pattern other than Some(x)")
             self.expect(";")
             return ("let", name, e)
         if v == "return":
@@ -381,6 +446,8 @@ class P:
         k, v = self.take()
         if k == "num":
             return ("num", v)
+        if k == "str":
+            return ("string",)
         if v == "(":
             e = self.expr()
             self.expect(")")
@@ -415,6 +482,11 @@ class Ctx:
         self.params = []          # [(coq name, coq type)] in order of first use
         self.ptype = {}           # coq name -> rust type
         self.fresh = 0
+        self.asserts = []         # closed boolean conditions the Rust code asserts (Ord::clamp: min <= max)
+        self.notes = []           # remarks for the generated comment (opaque inputs, float representation)
+        self.tail_types = []      # rust types of the values produced by tail / return expressions
+        self.uses_float = False
+        self.local_names = set()  # Coq names of the locals bound so far
 
     def field_type(self, path):
         ty = self.self_type
@@ -425,7 +497,7 @@ class Ctx:
             ty = flds[f]
         return ty
 
-    def use_field(self, path):
+    def use_field(self, path, atomic=False):
         name = "_".join(path)
         if name in getattr(self, "fn_param_names", ()):
             name = "self_" + name
@@ -433,7 +505,18 @@ class Ctx:
         rty = self.field_type(path)
         if rty is None:
             raise TErr("unknown field self.%s" % ".".join(path))
+        if atomic:
+            m = re.match(r"(?:Arc<\s*)?(Atomic\w+)\s*>?$", rty)
+            if not m or m.group(1) not in ATOMIC:
+                raise TErr("load/store on self.%s of type %s" % (".".join(path), rty))
+            rty = ATOMIC[m.group(1)]
+            self.atomic_names = getattr(self, "atomic_names", set()) | {name}
+            note = "atomic %s read/written as a plain %s" % (name, rty)
+            if note not in self.notes:
+                self.notes.append(note)
         if name not in self.ptype:
+            if name in self.local_names:
+                raise TErr("self.%s is first read after a local of the same name was bound" % ".".join(path))
             self.ptype[name] = rty
             self.params.append((name, coq_type(rty)))
         return name, rty
@@ -445,6 +528,8 @@ def coq_type(rty):
         return "Z"
     if rty == "bool":
         return "bool"
+    if rty == "f64":
+        return "float"
     m = re.match(r"Option<\s*(\w+)\s*>", rty)
     if m and m.group(1) in INT_TYPES:
         return "option Z"
@@ -454,8 +539,34 @@ def coq_type(rty):
 def num_lit(v):
     m = re.match(r"(\d[\d_]*)(?:_?(u8|u16|u32|u64|usize|i32|i64))?$", v)
     if not m:
-        raise TErr("float literal %s" % v)
+        f = re.match(r"(\d[\d_]*(?:\.\d+)?)(?:_?f64)?$", v)
+        if not f:
+            raise TErr("numeric literal %s" % v)
+        # f64 literal: correctly rounded by Python exactly as rustc does, written in hex (exact)
+        return "%s%%float" % float(f.group(1).replace("_", "")).hex(), "f64"
     return m.group(1).replace("_", ""), m.group(2)
+
+
+def is_const_expr(e, ctx):
+    """expression built from literals and Rust consts only"""
+    if e[0] == "num":
+        return True
+    if e[0] == "paren":
+        return is_const_expr(e[1], ctx)
+    if e[0] == "var":
+        return e[1].split("::")[-1] in ctx.consts
+    if e[0] == "bin":
+        return is_const_expr(e[2], ctx) and is_const_expr(e[3], ctx)
+    return False
+
+
+FCMP = {"==": "(PrimFloat.eqb %s %s)", "!=": "(negb (PrimFloat.eqb %s %s))", "<": "(PrimFloat.ltb %s %s)",
+        ">": "(PrimFloat.ltb %s %s)", "<=": "(PrimFloat.leb %s %s)", ">=": "(PrimFloat.leb %s %s)"}
+FARITH = {"+": "PrimFloat.add", "-": "PrimFloat.sub", "*": "PrimFloat.mul", "/": "PrimFloat.div"}
+# `as` between f64 and integers: the Rust f64 primitives of Model/Select.v (truncating, saturating, NaN -> 0;
+# int -> f64 round to nearest even)
+FCAST = {("f64", "u64"): "Select.f64_as_u64", ("f64", "i32"): "Select.f64_as_i32",
+         ("i32", "f64"): "Select.f64_of_i32", ("u64", "f64"): "Select.f64_of_u64"}
 
 
 SAT = {("saturating_sub", "u64"): "ssub", ("saturating_sub", "usize"): "ssub", ("saturating_sub", "u32"): "ssub",
@@ -482,6 +593,25 @@ class Env:
         e.assigned = list(self.assigned)
         return e
 
+    # Current values of self fields live under the key "self.<name>", apart from locals and parameters:
+    # a local that happens to be called like a field (`let window = ..`, `let Some(last_received) = ..`)
+    # must not be read back as the field.
+    def key(self, n):
+        return "self." + n if n in self.ctx.ptype else n
+
+    def cur(self, n, default=None):
+        return self.v.get(self.key(n), default)
+
+    def setcur(self, n, val):
+        self.v[self.key(n)] = val
+
+    def bind(self, name, ty):
+        """bind a local; returns its Coq name (renamed when it would capture a self-field parameter)"""
+        coq = name + "_loc" if name in self.ctx.ptype else name
+        self.ctx.local_names.add(coq)
+        self.v[name] = (coq, ty)
+        return coq
+
 
 def path_of(e):
     """self.a.b -> ['a','b'] or None"""
@@ -492,6 +622,66 @@ def path_of(e):
     if e == ("var", "self"):
         return list(reversed(p))
     return None
+
+
+def is_ordering(e):
+    return e[0] == "var" and e[1].split("::")[0] == "Ordering" and "::" in e[1]
+
+
+def find_callee(recv, name, ctx):
+    """`self.m(..)` or `self.<component path>.m(..)` where m is an already translated method of the
+    receiver's type -> (registry entry, component path)"""
+    p = [] if recv == ("var", "self") else path_of(recv)
+    if p is None:
+        return None
+    ty = ctx.self_type if not p else ctx.field_type(p)
+    callee = REGISTRY.get((ty, name))
+    return (callee, p) if callee is not None else None
+
+
+def find_free_callee(qualified):
+    parts = qualified.split("::")
+    callee = REGISTRY.get((None, parts[-1]))
+    if callee is None:
+        return None
+    if len(parts) > 1 and parts[-2] not in ("self", "super", "crate") and \
+            os.path.splitext(os.path.basename(callee["file"]))[0] != parts[-2]:
+        raise TErr("call %s does not name the translated %s" % (qualified, callee["file"]))
+    return callee
+
+
+def call_actuals(callee, base, args, env):
+    """Coq actual parameters of a call to a translated function: its self-field inputs are read from the
+    caller's current state (relative to the component path `base`), its Rust parameters from `args`."""
+    ctx = env.ctx
+    if len(args) != callee["nparams"]:
+        raise TErr("call of %s with %d arguments" % (callee["coq"], len(args)))
+    actual = []
+    for origin in callee["origins"]:
+        if origin[0] == "field":
+            if base is None:
+                raise TErr("free function with self inputs")
+            if origin[1][-1].endswith("()"):
+                # an opaque-getter input of the callee is the same getter on the caller's component
+                comp = list(base) + list(origin[1][:-1])
+                actual.append(ev(("call", origin[1][-1][:-2], field_expr(comp), []), env)[0])
+                continue
+            nm2, rty = ctx.use_field(list(base) + list(origin[1]), atomic=origin[2])
+            if env.cur(nm2) is not None:
+                actual.append(env.cur(nm2)[0])
+            else:
+                env.setcur(nm2, (nm2, rty))
+                actual.append(nm2)
+        else:
+            actual.append("(%s)" % ev(args[origin[1]], env)[0])
+    return actual
+
+
+def field_expr(path):
+    e = ("var", "self")
+    for f in path:
+        e = ("field", e, f)
+    return e
 
 
 def ev(e, env):
@@ -525,9 +715,9 @@ def ev(e, env):
         p = path_of(e)
         if p is not None:
             nm, rty = ctx.use_field(p)
-            if nm in env.v:
-                return env.v[nm]
-            env.v[nm] = (nm, rty)
+            if env.cur(nm) is not None:
+                return env.cur(nm)
+            env.setcur(nm, (nm, rty))
             return nm, rty
         raise TErr("field access on non-self")
     if k == "deref":
@@ -537,10 +727,17 @@ def ev(e, env):
         return "(negb %s)" % s, "bool"
     if k == "neg":
         s, t = ev(e[1], env)
+        if t == "f64":
+            return "(PrimFloat.opp %s)" % s, t
         return "(- %s)" % s, t
     if k == "cast":
         s, t = ev(e[2], env)
         ty = e[1]
+        if (t, ty) in FCAST:
+            ctx.uses_float = True
+            return "(%s %s)" % (FCAST[(t, ty)], s), ty
+        if ty == "f64" and t == "f64":
+            return s, ty
         if ty in INT_TYPES and (t in INT_TYPES or t is None):
             if t in ("u32", "u8", "u16", None) or ty == t or (t == "usize" and ty == "u64") or (t == "u32" and ty in ("u64", "usize", "i64")):
                 return s, ty
@@ -555,6 +752,17 @@ def ev(e, env):
         t = ta or tb
         if op in ("&&", "||"):
             return "(%s %s %s)" % (sa, op, sb), "bool"
+        if "f64" in (ta, tb):
+            if not (ta in ("f64", None) and tb in ("f64", None)):
+                raise TErr("operator %s on %s and %s" % (op, ta, tb))
+            ctx.uses_float = True
+            if op in FCMP:
+                if op in (">", ">="):
+                    sa, sb = sb, sa
+                return FCMP[op] % (sa, sb), "bool"
+            if op in FARITH:
+                return "(%s %s %s)" % (FARITH[op], sa, sb), "f64"
+            raise TErr("operator %s on f64" % op)
         if op in ("==", "!=", "<", ">", "<=", ">="):
             if t == "bool":
                 r = "(Bool.eqb %s %s)" % (sa, sb)
@@ -588,27 +796,35 @@ def ev(e, env):
                 raise TErr("closure expected")
             inner = tr[tr.index("<") + 1:-1].strip() if tr and "<" in tr else "u64"
             env2 = env.copy()
-            env2.v[cl[1]] = (cl[1], inner)
+            cv = env2.bind(cl[1], inner)
             sb, _ = ev(cl[2], env2)
             dflt = "true" if name == "is_none_or" else "false"
-            return "(match %s with Some %s => %s | None => %s end)" % (sr, cl[1], sb, dflt), "bool"
-        if recv == ("var", "self") and name in REGISTRY:
-            callee = REGISTRY[name]
+            return "(match %s with Some %s => %s | None => %s end)" % (sr, cv, sb, dflt), "bool"
+        found = find_callee(recv, name, ctx)
+        if found is not None:
+            callee, base = found
             if callee["outs"]:
-                raise TErr("call to mutating method %s" % name)
-            actual = []
-            ai = 0
-            for origin in callee["origins"]:
-                if origin[0] == "field":
-                    nm2, rty = ctx.use_field(origin[1])
-                    if nm2 in env.v:
-                        actual.append(env.v[nm2][0])
-                    else:
-                        env.v[nm2] = (nm2, rty)
-                        actual.append(nm2)
-                else:
-                    actual.append("(%s)" % ev(args[origin[1]], env)[0])
-            return "(leaf_%s %s)" % (callee["coq"], " ".join(actual)), callee["rtype"]
+                raise TErr("call to mutating method %s in expression position" % name)
+            return "(leaf_%s %s)" % (callee["coq"], " ".join(call_actuals(callee, base, args, env))), callee["rtype"]
+        if name == "load" and path_of(recv) is not None and len(args) == 1 and is_ordering(args[0]):
+            nm, rty = ctx.use_field(path_of(recv), atomic=True)
+            if env.cur(nm) is not None:
+                return env.cur(nm)
+            env.setcur(nm, (nm, rty))
+            return nm, rty
+        if path_of(recv) is not None and not args and (ctx.field_type(path_of(recv)), name) in OPAQUE_GETTERS:
+            p = path_of(recv)
+            rty = OPAQUE_GETTERS[(ctx.field_type(p), name)]
+            nm = "_".join(p) + "_" + name
+            FIELD_PATHS[(id(ctx), nm)] = list(p) + [name + "()"]
+            if nm not in ctx.ptype:
+                ctx.ptype[nm] = rty
+                ctx.params.append((nm, coq_type(rty)))
+                ctx.notes.append("%s = self.%s.%s() is an input (getter of %s, not translated)"
+                                 % (nm, ".".join(p), name, ctx.field_type(p)))
+            if rty == "f64":
+                ctx.uses_float = True
+            return nm, rty
         if name == "is_empty":
             p = path_of(recv)
             if p is None:
@@ -621,6 +837,17 @@ def ev(e, env):
             return nm, "bool"
         sr, tr = ev(recv, env)
         sargs = [ev(a, env) for a in args]
+        if name in ("min", "max") and "f64" in (tr, sargs[0][1]):
+            if not (tr in ("f64", None) and sargs[0][1] in ("f64", None)):
+                raise TErr("f64 %s on %s and %s" % (name, tr, sargs[0][1]))
+            ctx.uses_float = True
+            return "(Select.f64_%s %s %s)" % (name, sr, sargs[0][0]), "f64"       # NaN operand ignored
+        if name == "clamp" and len(args) == 2 and (tr in INT_TYPES):
+            # Ord::clamp asserts min <= max: recorded as an obligation of the function (closed bounds only)
+            if not (is_const_expr(args[0], ctx) and is_const_expr(args[1], ctx)):
+                raise TErr("clamp with non-constant bounds")
+            ctx.asserts.append("(%s <=? %s)" % (sargs[0][0], sargs[1][0]))
+            return "(clamp %s %s %s)" % (sargs[0][0], sargs[1][0], sr), tr
         if name in ("min", "max"):
             return "(Z.%s %s %s)" % (name, sr, sargs[0][0]), tr or sargs[0][1]
         if name == "saturating_sub" and tr == "i32":
@@ -630,6 +857,11 @@ def ev(e, env):
         raise TErr("method %s on %s" % (name, tr))
     if k == "fcall":
         name, args = e[1].split("::")[-1], e[2]
+        callee = find_free_callee(e[1])
+        if callee is not None:
+            if callee["outs"]:
+                raise TErr("call to mutating function %s in expression position" % name)
+            return "(leaf_%s %s)" % (callee["coq"], " ".join(call_actuals(callee, None, args, env))), callee["rtype"]
         sargs = [ev(a, env) for a in args]
         if name in ("min", "max") and len(sargs) == 2:
             return "(Z.%s %s %s)" % (name, sargs[0][0], sargs[1][0]), sargs[0][1] or sargs[1][1]
@@ -638,8 +870,13 @@ def ev(e, env):
         raise TErr("call %s" % name)
     if k in ("if", "iflet", "match"):
         # expression-valued conditional without side effects
-        r = run_block([("tail", e)], env.copy(), want_value=True)
-        return r
+        mark = len(ctx.tail_types)
+        r, _ = run_block([("tail", e)], env.copy(), want_value=True)
+        tys = [t for t in ctx.tail_types[mark:] if t]
+        del ctx.tail_types[mark:]
+        if "f64" in tys and any(t != "f64" for t in tys):
+            raise TErr("conditional expression mixing f64 and %s" % [t for t in tys if t != "f64"][0])
+        return r, (tys[0] if tys else None)
     if k == "string":
         raise TErr("string value")
     raise TErr("expression kind %s" % k)
@@ -670,12 +907,51 @@ def has_string(e):
 
 
 def state_tuple(env, names, ret):
-    parts = [env.v.get(n, (n, None))[0] for n in names]
+    parts = [env.cur(n, (n, None))[0] for n in names]
     if ret is not None:
         parts.append(ret)
     if not parts:
         return "tt"
     return parts[0] if len(parts) == 1 else "(" + ", ".join(parts) + ")"
+
+
+def effect_call(e, env):
+    """An expression statement with an effect the subset knows:
+       `self.<field>.store(v, Ordering::_)`           -> ("store", lvalue expr, value expr)
+       a call of a translated function with outputs   -> ("call", registry entry, component path, args,
+                                                          [lvalue expr of each output])
+    None for anything else."""
+    ctx = env.ctx
+    if e[0] == "call" and e[1] == "store" and path_of(e[2]) is not None and len(e[3]) == 2 and is_ordering(e[3][1]):
+        return ("store", e[2], e[3][0])
+    callee, base, args = None, None, None
+    if e[0] == "call":
+        found = find_callee(e[2], e[1], ctx)
+        if found is not None:
+            (callee, base), args = found, e[3]
+    elif e[0] == "fcall":
+        callee, args = find_free_callee(e[1]), e[2]
+    if callee is None:
+        return None
+    if len(args) != callee["nparams"]:
+        raise TErr("call of %s with %d arguments" % (callee["coq"], len(args)))
+    lvs = []
+    for o in callee["outs"]:
+        origin = callee["origins"][callee["params"].index(o)]
+        if origin[0] == "field":
+            if base is None:
+                raise TErr("free function with self outputs")
+            lvs.append(("lv", field_expr(list(base) + list(origin[1])), origin[2]))
+        else:
+            lvs.append(("lv", args[origin[1]], False))
+    return ("call", callee, base, args, lvs)
+
+
+def effect_lvalue_name(lv, env):
+    _, e, atomic = lv
+    if atomic:
+        return env.ctx.use_field(path_of(e), atomic=True)[0]
+    return lvalue_name(e, env)
 
 
 def collect_assigned(stmts, env, acc):
@@ -684,6 +960,15 @@ def collect_assigned(stmts, env, acc):
             n = lvalue_name(s[1], env)
             if n not in acc:
                 acc.append(n)
+        elif s[0] == "exprstmt" and effect_call(s[1], env) is not None:
+            eff = effect_call(s[1], env)
+            names = [env.ctx.use_field(path_of(eff[1]), atomic=True)[0]] if eff[0] == "store" else \
+                [effect_lvalue_name(lv, env) for lv in eff[4]]
+            for n in names:
+                if n not in acc:
+                    acc.append(n)
+        elif s[0] == "letelse":
+            collect_assigned(s[3], env, acc)
         elif s[0] in ("expr", "tail", "exprstmt"):
             e = s[1]
             if e[0] == "if":
@@ -696,6 +981,34 @@ def collect_assigned(stmts, env, acc):
                 for _, b in e[2]:
                     collect_assigned(b, env, acc)
     return acc
+
+
+def block_diverges(stmts):
+    return bool(stmts) and stmts[-1][0] == "return"
+
+
+def pure_expr(e):
+    """expression statements that are dropped must not hide an effect: only variables, literals,
+    field reads and operators on them"""
+    if e[0] in ("num", "var", "string"):
+        return True
+    if e[0] in ("paren", "not", "neg", "deref"):
+        return pure_expr(e[1])
+    if e[0] == "field":
+        return pure_expr(e[1])
+    if e[0] == "bin":
+        return pure_expr(e[2]) and pure_expr(e[3])
+    if e[0] == "cast":
+        return pure_expr(e[2])
+    return False
+
+
+def describe(e):
+    if e[0] == "call":
+        return ".%s(..)" % e[1]
+    if e[0] == "fcall":
+        return "%s(..)" % e[1]
+    return e[0]
 
 
 def run_stmts(stmts, env, outs, has_ret):
@@ -713,23 +1026,61 @@ def run_stmts(stmts, env, outs, has_ret):
         if has_string(s[2]):
             return run_stmts(rest, env, outs, has_ret)
         se, te = ev(s[2], env)
-        env.v[s[1]] = ("%s" % s[1], te)
+        lv = env.bind(s[1], te)
         body = run_stmts(rest, env, outs, has_ret)
-        return "(let %s := %s in %s)" % (s[1], se, body)
+        return "(let %s := %s in %s)" % (lv, se, body)
+    if k == "letelse":
+        sc, tsc = ev(s[2], env)
+        if not (tsc and tsc.startswith("Option<")):
+            raise TErr("let-else on a value of type %s" % tsc)
+        inner = tsc[tsc.index("<") + 1:-1].strip()
+        if not block_diverges(s[3]):
+            raise TErr("let-else block does not end in return")
+        ea = env.copy()
+        lv = ea.bind(s[1], inner)
+        a = run_stmts(rest, ea, outs, has_ret)
+        b = run_stmts(list(s[3]), env.copy(), outs, has_ret)
+        return "(match %s with Some %s => %s | None => %s end)" % (sc, lv, a, b)
+    if k == "exprstmt" and effect_call(s[1], env) is not None:
+        eff = effect_call(s[1], env)
+        if eff[0] == "store":
+            n = env.ctx.use_field(path_of(eff[1]), atomic=True)[0]
+            se, te = ev(eff[2], env)
+            cur_t = env.cur(n, (None, env.ctx.ptype[n]))[1]
+            env.ctx.fresh += 1
+            tmp = "%s_%d" % (n, env.ctx.fresh)
+            env.setcur(n, (tmp, cur_t))
+            return "(let %s := %s in %s)" % (tmp, se, run_stmts(rest, env, outs, has_ret))
+        _, callee, base, args, lvs = eff
+        call = "(leaf_%s %s)" % (callee["coq"], " ".join(call_actuals(callee, base, args, env)))
+        names = [effect_lvalue_name(lv, env) for lv in lvs]
+        if len(set(names)) != len(names):
+            raise TErr("aliased outputs in call of %s" % callee["coq"])
+        tmps = []
+        for n in names:
+            cur_t = env.cur(n, (None, env.ctx.ptype.get(n)))[1]
+            env.ctx.fresh += 1
+            tmps.append("%s_%d" % (n, env.ctx.fresh))
+            env.setcur(n, (tmps[-1], cur_t))
+        if callee["rtype"]:
+            tmps.append("_")
+        pat = tmps[0] if len(tmps) == 1 else "'(" + ", ".join(tmps) + ")"
+        return "(let %s := %s in %s)" % (pat, call, run_stmts(rest, env, outs, has_ret))
     if k == "assign":
         n = lvalue_name(s[1], env)
         se, te = ev(s[2], env)
-        cur_t = env.v.get(n, (None, te))[1]
+        cur_t = env.cur(n, (None, te))[1]
         env.fresh = getattr(env, "fresh", 0)
         env.ctx.fresh += 1
         tmp = "%s_%d" % (n, env.ctx.fresh)
-        env.v[n] = (tmp, cur_t)
+        env.setcur(n, (tmp, cur_t))
         body = run_stmts(rest, env, outs, has_ret)
         return "(let %s := %s in %s)" % (tmp, se, body)
     if k == "return":
         ret = None
         if s[1] is not None:
-            ret = ev(s[1], env)[0]
+            ret, tret = ev(s[1], env)
+            env.ctx.tail_types.append(tret)
         return state_tuple(env, outs, ret if has_ret else None)
     if k == "tail":
         e = s[1]
@@ -737,9 +1088,12 @@ def run_stmts(stmts, env, outs, has_ret):
             return run_cond(e, rest, env, outs, has_ret)
         if rest:
             raise TErr("tail expression followed by statements")
-        se, _ = ev(e, env)
+        se, te = ev(e, env)
+        env.ctx.tail_types.append(te)
         return state_tuple(env, outs, se if has_ret else None)
     if k == "exprstmt":
+        if not pure_expr(s[1]):
+            raise TErr("expression statement with an effect outside the subset: %s" % describe(s[1]))
         return run_stmts(rest, env, outs, has_ret)
     if k == "expr":
         return run_cond(s[1], rest, env, outs, has_ret)
@@ -757,10 +1111,10 @@ def run_cond(e, rest, env, outs, has_ret):
         sc, tsc = ev(e[2], env)
         inner = tsc[tsc.index("<") + 1:-1].strip() if tsc and "<" in tsc else "u64"
         ea = env.copy()
-        ea.v[e[1]] = (e[1], inner)
+        lv = ea.bind(e[1], inner)
         a = run_stmts(list(e[3]) + list(rest), ea, outs, has_ret)
         b = run_stmts(list(e[4]) + list(rest), env.copy(), outs, has_ret)
-        return "(match %s with Some %s => %s | None => %s end)" % (sc, e[1], a, b)
+        return "(match %s with Some %s => %s | None => %s end)" % (sc, lv, a, b)
     if e[0] == "match":
         sc, tsc = ev(e[1], env)
         arms = []
@@ -769,8 +1123,7 @@ def run_cond(e, rest, env, outs, has_ret):
             m = re.match(r"Some\((\w+)\)$", pat)
             if m:
                 inner = tsc[tsc.index("<") + 1:-1].strip() if tsc and "<" in tsc else "u64"
-                en.v[m.group(1)] = (m.group(1), inner)
-                cp = "Some %s" % m.group(1)
+                cp = "Some %s" % en.bind(m.group(1), inner)
             elif pat in ("None", "_"):
                 cp = pat
             else:
@@ -791,38 +1144,75 @@ def translate(coq_name, rel, impl, fn, srcs, structs, consts):
     ctx = Ctx(structs, consts, impl)
     env = Env(ctx)
     fparams = []
+    fpos = {}                  # parameter name -> position among the Rust parameters (self excluded)
+    pos = 0
     for p in [x.strip() for x in re.split(r",(?![^<]*>)", params) if x.strip()]:
         if p in ("&self", "&mut self", "self"):
             continue
         nm, ty = [x.strip() for x in p.split(":", 1)]
         nm = nm.replace("mut ", "").strip()
         ty = ty.replace("&mut ", "").replace("&", "").strip()
+        pos += 1
         if ty in ("str", "String") or nm.startswith("_"):
             continue
         fparams.append((nm, ty))
+        fpos[nm] = pos - 1
         env.v[nm] = (nm, ty)
     ctx.fn_param_names = [n for n, _ in fparams]
     stmts = P(tokenize(body)).block_from_start()
     outs = collect_assigned(stmts, env, [])
     # only lvalues that are parameters or self fields count as outputs (locals are lets)
     outs = [n for n in outs if n in ctx.ptype or n in [a for a, _ in fparams]]
+    canonical = GROUP.get(coq_name) in CANONICAL_GROUPS
+
+    def canon_key(n):
+        if n in fpos:
+            return (2, (fpos[n],), n)
+        path = FIELD_PATHS[(id(ctx), n)]
+        idx, ty = [], impl
+        for f in path:
+            if f.endswith("()"):
+                return (1, tuple(idx), n)
+            idx.append(list(structs[ty]).index(f))
+            ty = structs[ty][f]
+        return (0, tuple(idx), n)
+    if canonical:
+        outs = sorted(outs, key=canon_key)
     has_ret = bool(ret)
     expr = run_stmts(stmts, env, outs, has_ret)
     used = lambda n: re.search(r"\b%s\b" % re.escape(n), expr) is not None
     plist = [(n, t) for n, t in ctx.params]
     plist += [(n, coq_type(t)) for n, t in fparams if used(n) or n in outs]
+    if canonical:
+        plist = sorted(plist, key=lambda nt: canon_key(nt[0]))
     origins = []
     fnames = [n for n, _ in fparams]
+    atomics = getattr(ctx, "atomic_names", set())
     for n, _ in plist:
         if n in fnames:
-            origins.append(("arg", fnames.index(n)))
+            origins.append(("arg", fpos[n]))
         else:
-            origins.append(("field", FIELD_PATHS[(id(ctx), n)]))
-    REGISTRY[fn] = {"coq": coq_name, "origins": origins, "outs": outs, "rtype": ret or None}
+            origins.append(("field", FIELD_PATHS[(id(ctx), n)], n in atomics))
+    if "float" in [t for _, t in plist] or ret == "f64":
+        ctx.uses_float = True
+    entry = {"coq": coq_name, "origins": origins, "outs": outs, "rtype": ret or None, "nparams": pos,
+             "params": [n for n, _ in plist], "file": rel}
+    REGISTRY[(impl, fn)] = entry
     sig = " ".join("(%s : %s)" % (n, t) for n, t in plist)
     doc = "(* %s :: %s%s ; outputs: %s%s *)" % (rel, (impl + "::") if impl else "", fn,
                                                ", ".join(outs) or "-", (" + return value" if has_ret else ""))
-    return "%s\nDefinition leaf_%s %s :=\n  %s.\n" % (doc, coq_name, sig, expr), {"params": [n for n, _ in plist], "outs": outs, "ret": has_ret}
+    if ctx.uses_float:
+        ctx.notes.append("f64 values are Coq primitive floats (binary64, bit-exact); comparisons PrimFloat.ltb/leb/eqb, "
+                         "`as`/min/max by the Rust f64 primitives of Model/Select.v")
+    for note in ctx.notes:
+        doc += "\n(* %s *)" % note
+    text = "%s\nDefinition leaf_%s %s :=\n  %s.\n" % (doc, coq_name, sig, expr)
+    if ctx.asserts or coq_name in ALWAYS_ASSERTS:
+        text += ("\n(* what %s asserts on the way (Ord::clamp panics unless min <= max); a conjunction of closed "
+                 "conditions *)\nDefinition leaf_%s_asserts : bool :=\n  %s.\n"
+                 % (fn, coq_name, " && ".join(ctx.asserts) or "true"))
+    return text, {"params": [n for n, _ in plist], "outs": outs, "ret": has_ret, "float": ctx.uses_float,
+                  "asserts": len(ctx.asserts)}
 
 
 def block_from_start(self):
@@ -852,7 +1242,7 @@ def main():
     extra = {}
     for rel in [CORE + "connection/mod.rs", CORE + "connection/reconnection.rs", CORE + "connection/congestion/mod.rs",
                 CORE + "connection/rtt.rs", CORE + "connection/batch_send.rs", CORE + "connection/bitrate.rs",
-                "src/sender/sequence.rs"]:
+                "src/sender/sequence.rs", "src/config.rs"]:
         try:
             extra[rel] = strip_comments(open(os.path.join(REPO, rel)).read())
         except OSError:
@@ -874,6 +1264,10 @@ def main():
     for g, ds in sorted(defs.items()):
         hdr = ("(* GENERATED by tools/gen_leaf.py from the Rust sources under %s on every run. Do not edit. *)\n"
                "From Coq Require Import ZArith Bool.\nFrom Srtla Require Import Base Constants.\nOpen Scope Z_scope.\n\n" % REPO)
+        if g in FLOAT_GROUPS:
+            hdr = ("(* GENERATED by tools/gen_leaf.py from the Rust sources under %s on every run. Do not edit. *)\n"
+                   "From Coq Require Import ZArith Bool Floats.\nFrom Srtla Require Import Base Constants FConstants.\n"
+                   "From Srtla Require Select.\nOpen Scope Z_scope.\n\n" % REPO)
         content = hdr + "\n".join(ds)
         out = os.path.join(OUTDIR, "Leaf%s.v" % g)
         try:
